@@ -150,6 +150,19 @@ impl ChannelHandle {
         self.handle.call_nowait(method)
     }
 
+    // Like call_nowait, for a method that carries content: send_content must follow.
+    pub(crate) fn call_nowait_with_content<M: IntoAmqpClass + Debug>(
+        &mut self,
+        method: M,
+    ) -> Result<()> {
+        trace!(
+            "calling method with content on channel {}: {:?}",
+            self.channel_id(),
+            method
+        );
+        self.handle.call_nowait_with_content(method)
+    }
+
     pub(crate) fn send_content(
         &mut self,
         mut content: &[u8],
@@ -171,7 +184,8 @@ impl ChannelHandle {
                 self.channel_id(),
                 self.frame_max
             );
-            self.handle.send_content_body(&content[..self.frame_max])?;
+            self.handle
+                .send_content_body(&content[..self.frame_max], true)?;
             content = &content[self.frame_max..];
         }
         if !content.is_empty() {
@@ -180,7 +194,7 @@ impl ChannelHandle {
                 self.channel_id(),
                 content.len()
             );
-            self.handle.send_content_body(content)?;
+            self.handle.send_content_body(content, false)?;
         }
         Ok(())
     }
